@@ -135,6 +135,11 @@ public:
     }
     O["cdecl"] = declId(FD);
     O["cnparams"] = (int)FD->getNumParams();
+    {
+      json::Array pts;
+      for (auto *P : FD->parameters()) pts.push_back(typeStr(P->getType()));
+      O["pt"] = std::move(pts);
+    }
     if (inRoot(FD->getLocation())) O["crepo"] = true;
     if (auto *FPT = FD->getType()->getAs<FunctionProtoType>())
       if (FPT->isNothrow()) O["cnoexcept"] = true;
